@@ -203,6 +203,15 @@ func evalHelper(op string, args []string) string {
 					if err != nil {
 						head = "err"
 					}
+					// the value was handed over when the setter returned: the caller's buffer is its own again (a scratch
+					// buffer filled anew for every value, a secret wiped after use) - for every second operation it is
+					// overwritten, spare capacity included, before the packet is looked at
+					if len(obs)%2 == 1 {
+						full := v.B[:cap(v.B)]
+						for i := range full {
+							full[i] ^= 0xff
+						}
+					}
 					obs = append(obs, head+"|"+showAttributes(p.Attributes)+"|"+helperReads(e, p, q))
 				case "del":
 					e.Del(p)
